@@ -92,7 +92,9 @@ EvConnect(f, from, a, to) == [ev |-> "connect", flow |-> f, from |-> from, act |
 EvRunCall(n)  == [ev |-> "runcall", node |-> n, ctxdone |-> (ctx = "done")]
 EvRunRet(r)   == [ev |-> "runret", act |-> r.act, iserr |-> r.err.is,
                   errs |-> SetToSortedSeq(r.err.toks), ctxerr |-> r.err.ctx]
-EvPrep(n, o, t) == [ev |-> "prep", node |-> n, sok |-> TRUE, cok |-> TRUE, out |-> o.out,
+\* the store carries data from node to node: every post writes its fresh token under one key, every prep reads it
+LastWrote == LET ps == SelectSeq(h, LAMBDA e : e.ev = "post") IN IF ps = <<>> THEN 0 ELSE ps[Len(ps)].wrote
+EvPrep(n, o, t) == [ev |-> "prep", node |-> n, sok |-> TRUE, cok |-> TRUE, seen |-> LastWrote, out |-> o.out,
                     val |-> IF o.out = "ok" THEN ValTok(o, t) ELSE 0,
                     err |-> IF o.out = "err" THEN t ELSE 0, cancel |-> o.cancel]
 EvExec(n, k, arg, o, t) == [ev |-> "exec", node |-> n, k |-> k, arg |-> arg.t,
@@ -111,7 +113,7 @@ PostSees(n, xv) ==
        ELSE [exec |-> 0, eerr |-> FALSE, eerrtok |-> 0]    \* Any style: Value() of an error result is nil
 EvPost(n, pv, xv, o, t) ==
   LET s == PostSees(n, xv) IN
-  [ev |-> "post", node |-> n, sok |-> TRUE, cok |-> TRUE, prep |-> pv.t, pid |-> TRUE,
+  [ev |-> "post", node |-> n, sok |-> TRUE, cok |-> TRUE, wrote |-> t, prep |-> pv.t, pid |-> TRUE,
    exec |-> s.exec, eid |-> TRUE, ew |-> "raw", eerr |-> s.eerr, eerrtok |-> s.eerrtok,
    out |-> o.out, act |-> IF o.out = "ok" THEN o.act ELSE 0,
    err |-> IF o.out = "err" THEN t ELSE 0, cancel |-> o.cancel]
